@@ -82,6 +82,9 @@ void Channel::handleEvent(Timestamp receiveTime)
 
 void Channel::handleEventWithGuard(Timestamp receiveTime)
 {
+  // revents_ was filled in by the poller before this batch of callbacks began; an
+  // earlier callback of the same batch may have disabled or changed this channel's
+  // interest since, so each callback is run only if still subscribed to.
   eventHandling_ = true;
   LOG_TRACE << reventsToString();
   if ((revents_ & POLLHUP) && !(revents_ & POLLIN))
@@ -90,7 +93,7 @@ void Channel::handleEventWithGuard(Timestamp receiveTime)
     {
       LOG_WARN << "fd = " << fd_ << " Channel::handle_event() POLLHUP";
     }
-    if (closeCallback_) closeCallback_();
+    if (!isNoneEvent() && closeCallback_) closeCallback_();
   }
 
   if (revents_ & POLLNVAL)
@@ -100,15 +103,15 @@ void Channel::handleEventWithGuard(Timestamp receiveTime)
 
   if (revents_ & (POLLERR | POLLNVAL))
   {
-    if (errorCallback_) errorCallback_();
+    if (!isNoneEvent() && errorCallback_) errorCallback_();
   }
   if (revents_ & (POLLIN | POLLPRI | POLLRDHUP))
   {
-    if (readCallback_) readCallback_(receiveTime);
+    if (isReading() && readCallback_) readCallback_(receiveTime);
   }
   if (revents_ & POLLOUT)
   {
-    if (writeCallback_) writeCallback_();
+    if (isWriting() && writeCallback_) writeCallback_();
   }
   eventHandling_ = false;
 }
